@@ -285,6 +285,9 @@ fn enumerate_times(depth: usize, mut emit: impl FnMut(&[e3_times::Op])) {
 pub fn main_times(a: &Args) -> i32 {
     let n: usize = a.extra.iter().position(|x| x == "--n").map(|i| a.extra[i + 1].parse().unwrap()).unwrap_or(1);
     let threads = a.extra.iter().any(|x| x == "--threads");
+    if a.extra.iter().any(|x| x == "--postmortem") {
+        e3_times::POSTMORTEM.store(true, std::sync::atomic::Ordering::Relaxed);
+    }
     let mut hists: Vec<Vec<e3_times::Op>> = Vec::new();
     if let Some(f) = &a.replay {
         let txt = std::fs::read_to_string(f).expect("replay file");
